@@ -167,6 +167,12 @@ func createHtmlAttrs(attrs []html.Attribute) []HtmlAttribute {
 			continue
 		}
 
+		// In foreign content (svg, math) the tree builder reports
+		// xmlns:xlink="..." with the namespace "xmlns" and the key "xlink".
+		if i.Namespace == xmlns {
+			continue
+		}
+
 		name = getLocalName(name)
 
 		attr := HtmlAttribute{
